@@ -221,6 +221,8 @@ def failing_unit(src, errtext):
         if i > errline:
             break
         low = line.strip().lower()
+        if low.startswith("end") and "!" in low:
+            low = low.split("!", 1)[0].rstrip()      # an END statement holds no character context: the rest is a comment
         if re.match(r"end\s*(subroutine|function|module|program|submodule|block\s*data)?\b(\s+\w+)?\s*$", low):
             if i < errline:
                 if stack:
